@@ -18,6 +18,7 @@ RULE = (
     "helper task is left anywhere; a following simulate() gives the dump of a fresh build. For successful runs: "
     "in the presented logs (mirrored when reverse_log_information=False) every FS predecessor's last WORKING "
     "entry precedes the successor's first WORKING entry, and all logs have project.time entries. In the thorough "
+    'A dependency-rich profile puts FF/SF links next to FS links on one task, with one specialist worker per task. '
     "tier every (step, phase) fault point of the generated run is enumerated. Non-trivial = helper tasks were "
     "created (>= 2 tail tasks with different due times and the option on) or a fault was injected after step 0; "
     "distinct by case hash."
@@ -56,16 +57,41 @@ def _case(draw, cfg, tier):
     }
 
 
+# several dependency kinds on one task, everybody can do everything: tasks held WORKING with nothing left to do by a
+# finish-to-finish / start-to-finish link while their finish-to-start neighbours wait (in the backward run the links
+# point the other way)
+CFG_DEP = gen.Cfg(facilities=False, min_tasks=3, max_tasks=5, max_workers=3, kinds=[0, 0, 2, 2, 3], max_deps_factor=1, max_time=[60], abs_max=10, due=True,
+                  work_pool=[1.0, 2.0, 2.0, 3.0, 5.0], progress=False, p_auto=0, worker_abs=False, fixed_ids=False, solo=False, dup_names=6)
+
+
+@st.composite
+def _case_dep(draw, cfg, tier):
+    case = draw(_case(cfg, tier))
+    spec = case["spec"]
+    n = len(spec["tasks"])
+    for tm in spec["teams"]:
+        tm["targets"] = list(range(n))
+        tm.pop("notask", None)
+    while len(spec["workers"]) < n:
+        spec["workers"].append({"team": 0, "cost": 1.0, "solo": False, "skills": {}, "fsk": {}, "abs": [], "mw": None})
+    for i, w in enumerate(spec["workers"]):
+        w["skills"] = {str(k): 1.0 for k in range(n)} if i >= n else {str(i): 1.0}  # one specialist per task, the rest generalists
+    gen.share_skills_by_name(spec)
+    if draw(st.integers(0, 3)) > 0:
+        case["fault"] = None
+    return case
+
+
 def strategy(tier):
     if tier == "quick":
-        return st.one_of(_case(CFG, tier), _case(CFG, tier), _case(CFG_N, tier))
+        return st.one_of(_case(CFG, tier), _case(CFG, tier), _case(CFG_N, tier), _case_dep(CFG_DEP, tier))
     big = dict(max_tasks=9)
-    return st.one_of(_case(CFG.copy(**big), tier), _case(CFG.copy(**big), tier), _case(CFG_N.copy(**big), tier))
+    return st.one_of(_case(CFG.copy(**big), tier), _case(CFG.copy(**big), tier), _case(CFG_N.copy(**big), tier), _case_dep(CFG_DEP.copy(max_tasks=7), tier))
 
 
 def budget(tier):
     if tier == "quick":
-        return {"cases": 1500, "shards": 4}
+        return {"cases": 2400, "shards": 6}
     return {"cases": 60000, "shards": 16}
 
 
